@@ -154,6 +154,19 @@ CHECKS = {
         note="Line lengths are counted in characters. Caught-error positions (line/column/filename of the error "
              "object) are checked by the C01/C11 comparisons.",
         design="5/C08"),
+    "C02": dict(
+        technique="isolated-worker execution of spec-derived program families under a CoreLimits grid; VM instruction "
+                  "traces validated against the TLA+ bytecode-machine spec (HmsVM / TraceVM)",
+        text="Every (operator, operand type) the analyzer admits x boundary operands (zero divisors, negative / >= 64 "
+             "shift counts, extreme ints and floats), compound assignments on variables / elements / fields, boundary "
+             "member / option / cast / closure / global programs and the C01 families run on both backends under 2/4 "
+             "limit settings in worker processes: the observation must be completion or an interrupt, never a panic, a "
+             "hang or a dead worker; recorded instruction traces must satisfy NoUnderflow, LoopNeutral, ReturnBalanced, "
+             "HandlersLive, LimitOvershoot at every instruction.",
+        note="The specification contributes the input families and the per-instruction invariants; the crash-freedom "
+             "predicate itself is observed, not modelled. Two known findings (NewVM panics on failing global "
+             "initialisers; return in the middle of an expression leaves operands).",
+        design="5/C02"),
 }
 
 NOT_YET = {}
